@@ -294,13 +294,14 @@ def update_note_modify_dates(
 ) -> None:
     """Creates or updates note modify dates."""
     del session
-    today_short_date = zdt.to_short_date_spec(dt.date.today())
     _update_zo_file(
         zdir=event.zettel_dir,
         zo_path=event.zorg_page_path,
         notes_to_update=event.modified_notes,
         add_thing_to_first_line=_add_or_update_modify_date,
-        get_thing=lambda _: today_short_date,
+        # NOTE: We write the SAME date that was stored in the DB (instead of
+        # asking for today's date again, which might have changed by now).
+        get_thing=lambda note: zdt.to_short_date_spec(note.modify_date),
         log_message="Updating modify dates",
         # If this file also contains new notes, then it will be rewritten (and
         # its hash recorded) once more when their ZIDs are added.
@@ -410,7 +411,7 @@ def _check_for_modified_notes(
         note_has_changed = old_note and note != old_note
         if note.modify_date != today and note_has_changed:
             note.modify_date = today
-            modify_short_date = zdt.to_short_date_spec(dt.date.today())
+            modify_short_date = zdt.to_short_date_spec(today)
             # If the note's text starts with an old modify date spec (i.e. a
             # YYMMDD date directly in front of the ZID), then we need to
             # remove it before adding the new one. We look at the text itself
